@@ -455,6 +455,10 @@ Definition chk_C04_ev (k : trk) (o : op) (e : event) : bool :=
   match e with
   | ERet (RetItem (TOut c)) | ERet (RetItem (TErr c)) =>
       if is_ordered t then match k_deque k with c' :: _ => N.eqb c c' | [] => false end else true
+  | ERet RetNone =>
+      (* an ordered queue that still holds futures must release its front sooner or later: None
+         with a non-empty deque means the front can never come out any more *)
+      if is_ordered t && negb (is_adapter t) then Nat.eqb (length (k_deque k)) 0 else true
   | ERet (RetReady l) | ERet (RetOkv l) =>
       if is_join t then
         match l with
